@@ -124,8 +124,111 @@ def gen_bmk():
         d += '  | "%s" => some (XS_%s c m pt target in2pol weighted)\n' % (cls, cls)
     d += '  | _ => none\n\nend Gep.F\n'
     instantiate.write_if_changed(os.path.join(instantiate.LEAN, 'Gen', 'BmkDispatchF.lean'), d)
+    M_FIELDS[:] = m_fields
+    gen_sym(tk, tb, td, pt_fields, safe)
     return dict(produced=produced, rejected=rejected, pt_fields=pt_fields, m_fields=m_fields,
                 ndefs=len(tk.defs) + len(tb.defs) + len(td.defs), kin=kin_names, dvcs=dv_names)
+
+
+# defs that depend on the beam helicity but are neither even nor odd in it (sums of both kinds)
+LAMBDA_MIXED_PREFIXES = ('TINT', 'TDVCS2', 'TBH2', 'XS')
+
+
+COND_FIELDS = {k: v for k, v in py2lean.Translator.CONDS.items() if k != 'always'}
+M_FIELDS = []
+
+
+def gen_sym(tk, tb, td, pt_fields, safe):
+    """Gen/BmkSymR.lean: for every translated function of the point its behaviour under
+    phi -> 2pi - phi (mirror), helicity flip and charge flip, as far as it is uniform:
+      * a function that never reads a field (directly or through callees) is invariant: `rfl`;
+      * a helicity-dependent coefficient is expected to be odd (one factor lambda): `simp only; ring`.
+    The list of lemmas is regenerated from the source; a change that breaks one breaks the build."""
+    meta = {}
+    for t in (tk, tb, td):
+        meta.update(t.meta)
+    closure = {}
+
+    def reads(n):
+        if n not in closure:
+            closure[n] = set(meta[n]['reads'])
+            for c in meta[n]['callees']:
+                if c in meta:
+                    closure[n] |= reads(c)
+        return closure[n]
+    out = '-- AUTO-GENERATED by tools/py2lean_targets.py — do not edit\n'
+    out += 'import Gen.BmkR\nimport Proofs.BmkAttr\nimport Mathlib.Tactic.Ring\nset_option maxRecDepth 4000\nnamespace Gep.R\n\n'
+    out += '/-- phi -> 2 pi - phi -/\nnoncomputable def mirror (pt : Pt) : Pt := { pt with phi := 2 * Real.pi - pt.phi }\n'
+    out += '/-- beam helicity flip -/\ndef flipPol (pt : Pt) : Pt := { pt with in1polarization := -pt.in1polarization }\n'
+    out += '/-- lepton charge flip -/\ndef flipChg (pt : Pt) : Pt := { pt with in1charge := -pt.in1charge }\n\n'
+    for f in pt_fields:
+        sf = safe(f)
+        for op, fld, val in (('mirror', 'phi', '2 * Real.pi - pt.phi'), ('flipPol', 'in1polarization', '-pt.in1polarization'),
+                             ('flipChg', 'in1charge', '-pt.in1charge')):
+            rhs = val if f == fld else 'pt.' + sf
+            out += '@[simp, bmk_sym] theorem %s_%s (pt : Pt) : (%s pt).%s = %s := rfl\n' % (op, sf, op, sf, rhs)
+    out += '\n'
+    for cond, fields in COND_FIELDS.items():
+        out += 'def %s (m : CFFs) : CFFs := { m with %s }\n' % (cond, ', '.join('%s := 0' % f for f in fields))
+        for f in M_FIELDS:
+            out += '@[simp, bmk_sym] theorem %s_%s (m : CFFs) : (%s m).%s = %s := rfl\n' % (cond, f, cond, f, '0' if f in fields else 'm.' + f)
+    out += '\n'
+    info = {}
+    for n, md in meta.items():
+        if not md['has_pt'] or md['typ'] != 'R':
+            continue
+        args = 'c m' if md['has_m'] else 'c'
+        binders = '(c : Consts) (m : CFFs) (pt : Pt)' if md['has_m'] else '(c : Consts) (pt : Pt)'
+        r = reads(n)
+        lem = n.replace('.', '_')
+        info[n] = {}
+        van = md.get('vanish') or {}
+        ZS = 'mul_zero, zero_mul, add_zero, zero_add, sub_zero, neg_zero, zero_div, sub_self, zero_pow, ne_eq, OfNat.ofNat_ne_zero, not_false_eq_true'
+        CX = ('Gep.Cx.mk_re, Gep.Cx.mk_im, Gep.Cx.add_re, Gep.Cx.add_im, Gep.Cx.sub_re, Gep.Cx.sub_im, Gep.Cx.neg_re, Gep.Cx.neg_im, '
+              'Gep.Cx.mul_re, Gep.Cx.mul_im, Gep.Cx.div_re, Gep.Cx.div_im, Gep.Cx.smul_re, Gep.Cx.smul_im, Gep.Cx.divR_re, '
+              'Gep.Cx.divR_im, Gep.Cx.ofReal_re, Gep.Cx.ofReal_im')
+        if van.get('always'):
+            zs = sorted({c.replace('.', '_') + '_zero' for c in md['callees'] if c in info and info[c].get('zero')})
+            out += '@[bmk_sym] theorem %s_zero %s : %s %s pt = 0 := by\n  simp only [%s, %s]\n' % (
+                lem, binders, n, args, ', '.join([n] + zs), ZS)
+            info[n]['zero'] = True
+        elif md['has_m']:
+            for cond in COND_FIELDS:
+                if not van.get(cond):
+                    continue
+                used = []
+                for c in md['callees']:
+                    if c in info and info[c].get('zero'):
+                        used.append(c.replace('.', '_') + '_zero')
+                    elif c in info and cond in info[c].get('vanish', []):
+                        used.append(c.replace('.', '_') + '_' + cond)
+                fl = ['%s_%s' % (cond, f) for f in sorted(md.get('mreads', []))]
+                out += '@[bmk_sym] theorem %s_%s (c : Consts) (m : CFFs) (pt : Pt) : %s c (%s m) pt = 0 := by\n' % (lem, cond, n, cond)
+                out += '  simp only [%s, %s, %s]\n  try ring\n' % (', '.join([n] + sorted(set(used)) + fl), CX, ZS)
+                info[n].setdefault('vanish', []).append(cond)
+        if 'phi' not in r:
+            out += '@[bmk_sym] theorem %s_mirror %s : %s %s (mirror pt) = %s %s pt := rfl\n' % (lem, binders, n, args, n, args)
+            info[n]['mirror'] = 'inv'
+        if 'in1charge' not in r:
+            out += '@[bmk_sym] theorem %s_flipChg %s : %s %s (flipChg pt) = %s %s pt := rfl\n' % (lem, binders, n, args, n, args)
+            info[n]['flipChg'] = 'inv'
+        if 'in1polarization' not in r:
+            out += '@[bmk_sym] theorem %s_flipPol %s : %s %s (flipPol pt) = %s %s pt := rfl\n' % (lem, binders, n, args, n, args)
+            info[n]['flipPol'] = 'inv'
+        elif not md['pyname'].startswith(LAMBDA_MIXED_PREFIXES) and md['pyname'] not in ('prepare',) and 'TP' not in md['pyname']:
+            used = []
+            for c in md['callees']:
+                if c in info and info[c].get('zero'):
+                    used.append(c.replace('.', '_') + '_zero')
+                elif c in info and 'flipPol' in info[c]:
+                    used.append(c.replace('.', '_') + '_flipPol')
+            out += '@[bmk_sym] theorem %s_flipPol %s : %s %s (flipPol pt) = -%s %s pt := by\n' % (lem, binders, n, args, n, args)
+            out += '  simp only [%s, mul_zero, zero_mul, add_zero, zero_add]\n  try ring\n' % ', '.join([n] + sorted(set(used)) + ['flipPol_' + safe(f) for f in sorted(md['reads'])])
+            info[n]['flipPol'] = 'odd'
+    out += '\nend Gep.R\n'
+    instantiate.write_if_changed(os.path.join(instantiate.LEAN, 'Gen', 'BmkSymR.lean'), out)
+    import json
+    json.dump(info, open(os.path.join(instantiate.LEAN, 'Gen', 'BmkSym.info.json'), 'w'), indent=0)
 
 
 def regen_all():
